@@ -4,6 +4,7 @@ package main
 
 import (
 	"fmt"
+	"os"
 	"sort"
 	"strconv"
 	"strings"
@@ -511,7 +512,8 @@ var deltas = []int64{0, 1, -1, 59, -59, 60, -60, 3540, -3540, 3600, -3600, 90000
 var alwaysZones = []string{"Australia/Lord_Howe", "America/Havana", "America/Sao_Paulo", "Africa/Casablanca",
 	"Pacific/Chatham", "Asia/Gaza", "Pacific/Apia", "America/Caracas", "Asia/Pyongyang", "Asia/Kathmandu",
 	"Antarctica/Troll", "Europe/Dublin", "America/New_York", "Europe/London", "Asia/Tehran", "America/Santiago",
-	"America/Asuncion", "Asia/Beirut", "Africa/Cairo", "America/St_Johns", "Africa/Monrovia", "Pacific/Kwajalein"}
+	"America/Asuncion", "Asia/Beirut", "Africa/Cairo", "America/St_Johns", "Africa/Monrovia", "Pacific/Kwajalein",
+	"Antarctica/Casey", "America/Argentina/Catamarca", "Africa/Tunis", "America/Moncton"}
 
 type nextGen struct {
 	ctx *core.Ctx
@@ -816,7 +818,70 @@ func genEvery(ctx *core.Ctx) {
 	}
 }
 
+// screen (development aid, C04_SCREEN=1): every distinct IANA table x every offset-changing
+// transition x the fixed schedules x all deltas, judged by the harness's Go transcription of
+// the reference only; prints how many calls differ per dst_shape and a few examples of
+// shapes that no known finding covers. Writes no cases.
+func screen(ctx *core.Ctx) {
+	tabs, _, _ := ianaTabs()
+	counts, total := map[string]int{}, map[string]int{}
+	examples := map[string][]string{}
+	for _, z := range tabs {
+		for _, i := range realTransitions(z) {
+			for _, s := range fixedScheds {
+				sp, err := parseSched(s.Opts, s.Expr)
+				if err != nil {
+					panic(err)
+				}
+				b := bits6{sp.Second, sp.Minute, sp.Hour, sp.Dom, sp.Month, sp.Dow}
+				for _, d := range deltas {
+					t := clampT(z.Tr[i].Start + d)
+					res := evalNext(sp, b, z, t, 0, "")
+					if res.Skipped {
+						continue
+					}
+					sh := res.Facts.shape()
+					total[sh]++
+					if res.Hung || !optEq(res.Obs, res.Ref) {
+						counts[sh]++
+						if len(examples[sh]) < 6 {
+							examples[sh] = append(examples[sh], fmt.Sprintf("%s %q t=%d obs=%s ref=%s", z.Name, s.Expr, t, coqOpt(res.Obs), coqOpt(res.Ref)))
+						}
+					}
+				}
+			}
+		}
+	}
+	for sh, n := range total {
+		fmt.Printf("shape %-18s calls %8d differing %6d\n", sh, n, counts[sh])
+	}
+	for sh, ex := range examples {
+		if sh != "hour_aligned" && sh != "none" {
+			continue
+		}
+		for _, e := range ex {
+			fmt.Println("UNCOVERED", sh, e)
+		}
+	}
+}
+
+// mix64: the splitmix64 finalizer. hx.NewRand(seed) starts at seed*gamma + c and every draw
+// adds gamma, so the streams of seeds k and k+1 are the same stream shifted by one draw;
+// seeding with mix64(seed) puts different seeds at unrelated positions. Every random choice
+// still derives from the run's seed through ctx.R.
+func mix64(z uint64) uint64 {
+	z += 0x9E3779B97F4A7C15
+	z = (z ^ (z >> 30)) * 0xBF58476D1CE4E5B9
+	z = (z ^ (z >> 27)) * 0x94D049BB133111EB
+	return z ^ (z >> 31)
+}
+
 func c04Gen(ctx *core.Ctx) {
+	ctx.R = hx.NewRand(mix64(ctx.Seed))
+	if os.Getenv("C04_SCREEN") != "" {
+		screen(ctx)
+		return
+	}
 	if ctx.Thorough {
 		hangBudget = 4
 	}
